@@ -105,8 +105,10 @@ func (rn *runner) replayByz(e *edge) (changedState bool, err error) {
 	pre := rn.snap()
 	for i, cm := range msgs {
 		o := rn.wire(cm)
+		rn.nSince++
 		rn.res.ByEff[e.Act.Eff]++
 		if o.smFail != nil {
+			rn.suspect = true
 			rn.addHit(hit{Class: rn.class, Msg: e.M, Concrete: cm.desc, Hex: hexOf(cm.bytes), Path: fmt.Sprintf("wire, message %d of %d", i+1, len(msgs)), Signed: m.Sig == "proposer" || m.Sig == "other",
 				Kind: "halt", Key: "halt/byzblock/" + m.Content, Detail: fmt.Sprint(o.smFail), Model: "as-is model: " + e.Act.AsIs + ", repaired model: " + e.Act.Eff})
 			if e.Act.AsIs == "panic" {
@@ -123,7 +125,11 @@ func (rn *runner) replayByz(e *edge) (changedState bool, err error) {
 	changed := pre != post
 	if changed {
 		rn.res.Affects++
+		if !changing[e.Act.Eff] && e.Act.Eff != "block" {
+			rn.unmodelled = true
+		}
 		if !e.Act.May {
+			rn.suspect = true
 			rn.addHit(hit{Class: rn.class, Msg: e.M, Path: "wire", Signed: m.Sig == "proposer" || m.Sig == "other", Kind: "state-change",
 				Key: "state-change/byzblock/" + m.Sig, Detail: "the RoundState changed on a block the specification classifies as unable to affect the node: " + firstDiff(pre, post)})
 		}
